@@ -138,7 +138,9 @@ def assemble(sc, obs, hev):
     files and states.  Only representation is changed here (ids as one integer, states in one shape)."""
     nf = len([n for n in obs["nodes"] if n.startswith("f")])
     rot = bool(sc.get("cfg", {}).get("rewrite")) or any(st["op"] == "rotate" for st in sc["steps"])
-    tr = [{"e": "begin", "name": sc["name"], "nf": nf, "rot": rot}]
+    # holds of the scenario that expire while it runs: the transfer reader (like the start-up reader) leaves their records out
+    shortlived = any(rq.get("exp", 9000) <= 30 for st in sc["steps"] if st["op"] == "script" for rq in st["reqs"])
+    tr = [{"e": "begin", "name": sc["name"], "nf": nf, "rot": rot, "shortlived": shortlived}]
     evs = obs["events"]
     for e in evs:
         if e["e"] == "L":
@@ -346,7 +348,7 @@ def run(prop, tier, seed):
         for sc in scs:
             if "tapstall" in obs_by[sc["name"]]:
                 o = obs_by[sc["name"]]
-                tr = [{"e": "begin", "name": sc["name"], "nf": 0, "rot": False}]
+                tr = [{"e": "begin", "name": sc["name"], "nf": 0, "rot": False, "shortlived": False}]
                 tr += [{"e": "L", "id": eid(e), "h": e["h"], "hr": e["hr"]} for e in o["events"] if e["e"] == "L"]
                 tr += [dict(o["tapstall"], e="tapstall"), {"e": "end", "name": sc["name"], "pairs": []}]
             else:
